@@ -46,6 +46,10 @@ BlankBound ==
        LET run == RunBefore(i - 1) IN
        /\ (L[i].depth = 0 => run <= R.upper)          \* between items
        /\ run <= (IF R.upper > 1 THEN R.upper ELSE 1)  \* statements / list elements
+       (* `never more than one inside a field, variant, arm or argument list', whatever the    *)
+       (* bound (R.listdepth: the depth at which the lines of a generated list source are its   *)
+       (* elements and the comments between them)                                              *)
+       /\ (("listdepth" \in DOMAIN R /\ L[i].depth = R.listdepth) => run <= 1)
 
 ReportInv ==
   LET F == {n \in {"OneFinalNewline", "NoLeadingBlank", "TerminatorsFollowStyle",
